@@ -244,6 +244,28 @@ type cycEmbed struct {
 
 type recArrSlice [][2]recArrSlice
 
+// cycles through interfaces that have methods
+type cycLinker interface{ Link() }
+
+type cycLinkNode struct {
+	V    int
+	Next cycLinker
+}
+
+func (*cycLinkNode) Link() {}
+
+type cycLinkSlice []cycLinker
+
+func (cycLinkSlice) Link() {}
+
+type cycLinkMap map[string]cycLinker
+
+func (cycLinkMap) Link() {}
+
+type cycLinkVal struct{ Next cycLinker }
+
+func (cycLinkVal) Link() {}
+
 type cycArr struct {
 	A [2]*cycArr
 }
@@ -288,6 +310,28 @@ var cyclic = []struct {
 	{"map[int]any containing itself", func() any { m := map[int]any{}; m[7] = m; return m }},
 	{"[][]any whose inner slice holds the outer", func() any { s := [][]any{{nil}}; s[0][0] = s; return s }},
 	{"[1][]any whose slice holds a pointer to the array", func() any { a := new([1][]any); a[0] = []any{a}; return a }},
+	{"struct whose method-bearing interface field holds itself", func() any { n := &cycLinkNode{V: 1}; n.Next = n; return n }},
+	{"two structs linked in a ring through method-bearing interfaces", func() any {
+		a, b := &cycLinkNode{V: 1}, &cycLinkNode{V: 2}
+		a.Next, b.Next = b, a
+		return *a
+	}},
+	{"slice of method-bearing interfaces containing itself", func() any { s := make(cycLinkSlice, 1); s[0] = s; return s }},
+	{"map of method-bearing interfaces containing itself", func() any { m := cycLinkMap{}; m["k"] = m; return m }},
+	{"struct by value in a method-bearing interface holding a slice that holds it", func() any {
+		s := make(cycLinkSlice, 1)
+		s[0] = cycLinkVal{Next: s}
+		return s
+	}},
+	{"1100 method-bearing interface hops leading into a ring", func() any {
+		a, b := &cycLinkNode{V: 1}, &cycLinkNode{V: 2}
+		a.Next, b.Next = b, a
+		head := a
+		for i := 0; i < 1100; i++ {
+			head = &cycLinkNode{V: i, Next: head}
+		}
+		return head
+	}},
 	// rho shapes: a long non-cyclic lead (longer than the depth at which cycle detection starts) into a ring
 	{"1500 pointer hops leading into a pointer ring of length 2", func() any {
 		a, b := &cycPtr{V: 1}, &cycPtr{V: 2}
@@ -724,7 +768,7 @@ func Spec() *explore.Spec {
 	return &explore.Spec{
 		ID: "C06",
 		Families: []*explore.Family{
-			{Name: "cycles", ShardDepth: 2, HangSeconds: 60, Body: cycles, Doc: "30 cyclic values (pointer cycles of length 1-3, cycles passing through arrays, through typed containers of containers and through integer-keyed maps, rings reached through 999-1500 non-cyclic levels, slices / maps / interfaces / recursive slice and map types / embedded pointers containing themselves) x {as is, behind *any, inside []any, inside a map, inside a struct field} x {Marshal, Append, Encoder, MarshalIndent}: an error is returned"},
+			{Name: "cycles", ShardDepth: 2, HangSeconds: 60, Body: cycles, Doc: "36 cyclic values (pointer cycles of length 1-3, cycles through interfaces that have methods, cycles passing through arrays, through typed containers of containers and through integer-keyed maps, rings reached through 999-1500 non-cyclic levels, slices / maps / interfaces / recursive slice and map types / embedded pointers containing themselves) x {as is, behind *any, inside []any, inside a map, inside a struct field} x {Marshal, Append, Encoder, MarshalIndent}: an error is returned"},
 			{Name: "ring-targets", ShardDepth: 2, HangSeconds: 60, FatalPerCase: true, Body: ringDecode, Doc: "14 decode targets whose interfaces and pointers form a ring (any / named empty interface / mixed, length 1-3, through **any, entered from outside, struct fields, slice elements, map values, a struct holding itself in a method-bearing interface) x 11 documents x 5 entry points: the call returns, without a panic or a stack overflow"},
 			{Name: "layouts-encode", ShardDepth: 1, Body: layoutsEncode, Doc: "every type shape of C01 plus pointer-shaped leaves nested 1-3 levels in single-field structs and one-element arrays x boundary values x {by value, by pointer, inside []any, as map value, in a typed slice, in a typed map} x {Marshal, Encoder with indent, Append(0)}"},
 			{Name: "layouts-decode", ShardDepth: 1, Body: layoutsDecode, Doc: "the same type shapes x (34 generic documents incl. mismatching, truncated and malformed ones + the encodings of the type's own boundary values) x {Unmarshal into *T and **T, Decoder with UseNumber, Parse with ZeroCopy|DisallowUnknownFields|DontMatchCaseInsensitiveStructFields}"},
